@@ -40,6 +40,7 @@ func gtext(args []string) error {
 	expect := fs.Int64("expect", -1, "number of states TLC reported (cross-check)")
 	padSample := fs.Int("padsample", 8, "apply seam placements to 1/N of the rejected cases (all accepted ones always)")
 	seed := fs.Int64("seed", 1, "sampling seed")
+	aspect := fs.String("aspect", "all", "which disagreements are reported: verdict | value | all")
 	fs.Parse(args)
 
 	prefix, err := hex.DecodeString(*prefixHex)
@@ -66,7 +67,7 @@ func gtext(args []string) error {
 		if len(batch) == 0 {
 			return
 		}
-		replayTexts(rep, batch, *nd, *pads, *prop, *padSample, *seed)
+		replayTexts(rep, batch, *nd, *pads, *prop, *padSample, *seed, *aspect)
 		batch = batch[:0]
 	}
 	n, err := tla.ReadDump(r, func(st tla.State) error {
@@ -126,7 +127,7 @@ func padsFor(text []byte, mode string) []int {
 	return ps
 }
 
-func replayTexts(rep *run.Report, batch []textCase, nd bool, pads, prop string, padSample int, seed int64) {
+func replayTexts(rep *run.Report, batch []textCase, nd bool, pads, prop string, padSample int, seed int64, aspect string) {
 	var evals, nontriv, skipped int64
 	for _, avx512 := range run.Kernels() {
 		run.SetKernel(avx512)
@@ -180,6 +181,10 @@ func replayTexts(rep *run.Report, batch []textCase, nd bool, pads, prop string, 
 						continue
 					}
 					if got != tc.verdict {
+						if aspect == "value" {
+							rep.Count("other_property_mismatch_verdict", 1)
+							continue
+						}
 						d := ""
 						if err != nil {
 							d = err.Error()
@@ -191,6 +196,9 @@ func replayTexts(rep *run.Report, batch []textCase, nd bool, pads, prop string, 
 						if pj != nil {
 							bad("nil result on error", "non-nil result", err.Error())
 						}
+						continue
+					}
+					if aspect == "verdict" {
 						continue
 					}
 					if cerr := read.Compare(pj, tc.roots); cerr != nil {
